@@ -15,7 +15,9 @@ TRUSTED = ["callbacks are modelled as functions of the node (each node is visite
 ASSUMPTIONS = ["RANDOM_ORDER / UNORDERED are compared as multisets"]
 
 METHODS = ["pre", "post", "level", "level_rtl", "zigzag", "zigzag_rtl", "random", "unordered"]
-SKIPS = ["retSkipCls", "retSkipInst", "raiseSkip"]
+SKIPS = ["retSkipCls", "retSkipInst", "raiseSkip", "retSkipSelfInst", "raiseSkipSelf"]
+# the model's traversal signals have one "instance of SkipBranch" spelling (`isinstance(res, SkipBranch)`, whatever `and_self` is)
+MODEL_TAG = {"retSkipSelfInst": "retSkipInst", "raiseSkipSelf": "raiseSkip"}
 STOPS = [("retStopCls", None), ("retStopInst", 5), ("retStopInst", None), ("raiseStop", 7), ("raiseStop", None),
          ("retFalse", None), ("retStopIterCls", None), ("retStopIterInst", 3), ("raiseStopIter", 4), ("raiseStopIter", None)]
 OTHERS = [("retOther", None), ("raiseOther", None)]
@@ -27,6 +29,10 @@ class CbError(Exception):
 
 def method_of(name):
     return IterMethod(name)
+
+
+def model_cb(cb):
+    return {k: [MODEL_TAG.get(v[0], v[0])] + list(v[1:]) for k, v in cb.items()}
 
 
 def make_cb(table, ser, calls):
@@ -46,6 +52,10 @@ def make_cb(table, ser, calls):
             return SkipBranch()
         if tag == "raiseSkip":
             raise SkipBranch
+        if tag == "retSkipSelfInst":
+            return SkipBranch(and_self=False)     # `and_self` matters to filters only: a traversal skips the descendants all the same
+        if tag == "raiseSkipSelf":
+            raise SkipBranch(and_self=False)
         if tag == "retStopCls":
             return StopTraversal
         if tag == "retStopInst":
@@ -192,7 +202,7 @@ def run(ctx):
                             table[st] = STOPS[k % len(STOPS)] if k % 13 else OTHERS[k % 2]
                         impl = impl_visit(tree, ser, path, m, add_self, table)
                         case = dict(kind="visit", spec=spec, path=list(path), m=m, self=add_self, cb={str(k): list(v) for k, v in table.items()}, typed=typed)
-                        reqs.append({"op": "visit", "t": tj, "path": list(path), "m": m, "self": add_self, "cb": case["cb"]})
+                        reqs.append({"op": "visit", "t": tj, "path": list(path), "m": m, "self": add_self, "cb": model_cb(case["cb"])})
                         pend.append((case, impl, f"visit({m}, add_self={add_self}) at {list(path)} cb={case['cb']}"))
                         out.count(("v", typed, repr(spec), path, m, add_self, repr(sorted(table.items()))), nontriv)
                         for tag, _ in table.values():
@@ -217,7 +227,9 @@ def run(ctx):
     # the same traversals on typed trees (TypedNode overrides iterator(); the kind plays no role in a traversal)
     for n in range(0, (5 if ctx.thorough else 4) + 1):
         for shape in gen.forests(n):
-            do_tree(gen.distinct_labeling(shape, alphabet), full_pairs=False, typed=True)
+            # siblings of DIFFERENT kinds (a traversal is about the child lists, whatever the kinds are)
+            kinds_ = itertools.cycle("abacb")
+            do_tree([((lab, next(kinds_)), k_) for lab, k_ in _with_kinds(gen.distinct_labeling(shape, alphabet), kinds_)], full_pairs=False, typed=True)
             out.dist["typed_tree"] += 1
     # random larger trees
     n_rand = 150 if ctx.thorough else 25
@@ -235,6 +247,11 @@ def run(ctx):
         do_tree(spec, full_pairs=False)
         out.dist["clone_tree"] += 1
     return out
+
+
+def _with_kinds(spec, kinds_):
+    """(label, kids) -> ((label, kind), kids) below the top level; the top level is done by the caller"""
+    return [(lab, [((l2, next(kinds_)), k2) for l2, k2 in _with_kinds(kids, kinds_)]) for lab, kids in spec]
 
 
 def relabel_unique(spec):
@@ -269,7 +286,7 @@ def replay(ctx, rp):
     else:
         table = {int(k): tuple(v) for k, v in case["cb"].items()}
         impl = impl_visit(tree, ser, path, case["m"], case["self"], table)
-        resp = ctx.driver.ask({"op": "visit", "t": tj, "path": list(path), "m": case["m"], "self": case["self"], "cb": case["cb"]})
+        resp = ctx.driver.ask({"op": "visit", "t": tj, "path": list(path), "m": case["m"], "self": case["self"], "cb": model_cb(case["cb"])})
     judge(out, case, impl, resp, "replay")
     return dict(tree=tree.format(repr="{node.data}"), implementation=impl, model=resp.get("model"), specification=resp.get("spec"),
                 property_holds=not out.oracle_failures)
